@@ -332,6 +332,96 @@ def moment_reduction(tree, fname):
     return nat_expr(call.args[1], env, fname), nat_expr(call.args[2], env, fname), nat_expr(div, env, fname)
 
 
+# ------------------------------------------------------------------ JordanCurve.intersection: the keep-condition of the end_points filter
+def bool_expr(e, fname):
+    """boolean expression over ui, vi (parameters, `None` for identical segments already excluded) -> Lean Bool term over u v : Rat"""
+    if isinstance(e, ast.BoolOp):
+        op = " && " if isinstance(e.op, ast.And) else " || "
+        return "(" + op.join(bool_expr(v, fname) for v in e.values) + ")"
+    if isinstance(e, ast.UnaryOp) and isinstance(e.op, ast.Not):
+        return f"(!{bool_expr(e.operand, fname)})"
+    if isinstance(e, ast.Compare):
+        def term_(x):
+            if isinstance(x, ast.Name) and x.id in ("ui", "vi"):
+                return "u" if x.id == "ui" else "v"
+            if isinstance(x, ast.Constant) and isinstance(x.value, (int, float)) and not isinstance(x.value, bool):
+                fr = Fraction(x.value)
+                return f"(({fr.numerator} : Rat) / ({fr.denominator} : Rat))"
+            raise Unsupported(f"unsupported operand {ast.dump(x)[:50]} at {where(e, fname)}")
+        if len(e.ops) == 1 and isinstance(e.ops[0], ast.Is) and isinstance(e.comparators[0], ast.Constant) and e.comparators[0].value is None:
+            return "false"       # `ui is None`: handled by the `none` branch of the generated match
+        parts, left = [], e.left
+        syms = {ast.Lt: "<", ast.LtE: "≤", ast.Gt: ">", ast.GtE: "≥", ast.Eq: "=", ast.NotEq: "≠"}
+        for op, right in zip(e.ops, e.comparators):
+            sym = next((v for k, v in syms.items() if isinstance(op, k)), None)
+            if sym is None:
+                raise Unsupported(f"unsupported comparison at {where(e, fname)}")
+            parts.append(f"decide ({term_(left)} {sym} {term_(right)})")
+            left = right
+        return "(" + " && ".join(parts) + ")"
+    raise Unsupported(f"unsupported boolean expression {ast.dump(e)[:60]} at {where(e, fname)}")
+
+
+def intersection_filters(jtree, fname):
+    """returns (Lean term for `tuple with (None, None) is removed when equal_beziers is False`, Lean term of the KEEP condition under end_points=False)"""
+    fn = find_func(find_class(jtree, "JordanCurve"), "intersection")
+    rm_none, keep = None, None
+    for st in fn.body:
+        if isinstance(st, ast.If) and isinstance(st.test, ast.UnaryOp) and isinstance(st.test.op, ast.Not) and isinstance(st.test.operand, ast.Name):
+            flag = st.test.operand.id
+            loop = st.body[0] if st.body and isinstance(st.body[0], ast.For) else None
+            if loop is None:
+                raise Unsupported(f"unsupported filter at {where(st, fname)}")
+            if flag == "equal_beziers":
+                iff = loop.body[0]
+                if not (isinstance(iff, ast.If) and ast.unparse(iff.test) == "ui is None" and "remove" in ast.unparse(iff.body[0])):
+                    raise Unsupported(f"unsupported equal_beziers filter at {where(loop, fname)}")
+                rm_none = "true"
+            elif flag == "end_points":
+                iff = loop.body[0]
+                if not (isinstance(iff, ast.If) and len(iff.body) == 1 and isinstance(iff.body[0], ast.Continue) and "remove" in ast.unparse(loop.body[1])):
+                    raise Unsupported(f"unsupported end_points filter at {where(loop, fname)}")
+                none_kept = "ui is None" in ast.unparse(iff.test)
+                keep = (bool_expr(iff.test, fname), "true" if none_kept else "false")
+    if rm_none is None or keep is None:
+        raise Unsupported("intersection filters not found")
+    return rm_none, keep
+
+
+# ------------------------------------------------------------------ Primitive vertex formulas
+def coord_expr(e, var, fname):
+    if isinstance(e, ast.Name) and e.id == var:
+        return "s"
+    if isinstance(e, ast.Constant) and isinstance(e.value, int) and not isinstance(e.value, bool):
+        return f"({e.value} : Rat)"
+    if isinstance(e, ast.UnaryOp) and isinstance(e.op, ast.USub):
+        return f"(-{coord_expr(e.operand, var, fname)})"
+    if isinstance(e, ast.BinOp) and isinstance(e.op, (ast.Div, ast.Mult, ast.Add, ast.Sub)):
+        sym = {ast.Div: "/", ast.Mult: "*", ast.Add: "+", ast.Sub: "-"}[type(e.op)]
+        return f"({coord_expr(e.left, var, fname)} {sym} {coord_expr(e.right, var, fname)})"
+    raise Unsupported(f"unsupported coordinate {ast.dump(e)[:50]} at {where(e, fname)}")
+
+
+def primitive_vertices(ptree, fn_name, var, fname, branch_test=None):
+    """vertex list literal `[(a, b), ...]` of a Primitive factory (after an optional `var /= k`), every vertex added to `center`"""
+    fn = find_func(find_class(ptree, "Primitive"), fn_name)
+    scale = "s"
+    lst = None
+    for n in ast.walk(fn):
+        if isinstance(n, ast.AugAssign) and isinstance(n.target, ast.Name) and n.target.id == var and isinstance(n.op, ast.Div) and isinstance(n.value, ast.Constant):
+            scale = f"(s / ({n.value.value} : Rat))"
+        if isinstance(n, ast.Assign) and isinstance(n.value, ast.List) and n.value.elts and all(isinstance(t, ast.Tuple) and len(t.elts) == 2 for t in n.value.elts):
+            if lst is None:
+                lst = n.value
+    if lst is None:
+        raise Unsupported(f"vertex list of Primitive.{fn_name} not found")
+    src = ast.unparse(fn)
+    if "center + Point2D(vertex)" not in src:
+        raise Unsupported(f"Primitive.{fn_name}: vertices are not `center + Point2D(vertex)`")
+    verts = ", ".join(f"c + ⟨{coord_expr(t.elts[0], var, fname)}, {coord_expr(t.elts[1], var, fname)}⟩" for t in lst.elts)
+    return f"(fun s => [{verts}]) {scale}"
+
+
 # ------------------------------------------------------------------ numeric literals
 def literal_consts(srcdir):
     """(name, value-as-Fraction) for the tolerance literals the properties mention"""
@@ -464,8 +554,33 @@ def regenerate(srcdir, gendir):
     except Exception as e:
         msgs.append(f"integrals: translator error {e!r}")
         out2.append(f"-- integrals: NOT TRANSLATED ({e!r})\n")
+    try:
+        jtree = ast.parse(open(os.path.join(srcdir, "jordancurve.py")).read())
+        rm_none, (keep, none_kept) = intersection_filters(jtree, "jordancurve.py")
+        out2.append("/-- `intersection(..., equal_beziers=False)` removes exactly the `(None, None)` entries -/\n")
+        out2.append(f"def equalBeziersFilterRemovesNone : Bool := {rm_none}\n")
+        out2.append("/-- `intersection(..., end_points=False)` KEEPS an entry iff this holds (`none` = `(None, None)`) -/\n")
+        out2.append(f"def keepWithoutEndPoints : Option (Rat × Rat) → Bool\n  | none => {none_kept}\n  | some (u, v) => {keep}\n")
+    except Unsupported as e:
+        msgs.append(f"intersection filters: unsupported construct: {e}")
+        out2.append(f"-- intersection filters: NOT TRANSLATED ({e})\n")
+    except Exception as e:
+        msgs.append(f"intersection filters: translator error {e!r}")
+        out2.append(f"-- intersection filters: NOT TRANSLATED ({e!r})\n")
+    try:
+        prtree = ast.parse(open(os.path.join(srcdir, "primitive.py")).read())
+        for nm, var in (("square", "side"), ("triangle", "side"), ("regular_polygon", "radius")):
+            lean_nm = {"square": "squareVertices", "triangle": "triangleVertices", "regular_polygon": "regular4Vertices"}[nm]
+            out2.append(f"/-- vertices of `Primitive.{nm}` (the `nsides == 4` branch for regular_polygon) as written in the source -/\n")
+            out2.append(f"def {lean_nm} (s : Rat) (c : Pt) : List Pt := {primitive_vertices(prtree, nm, var, 'primitive.py')}\n")
+    except Unsupported as e:
+        msgs.append(f"primitives: unsupported construct: {e}")
+        out2.append(f"-- primitives: NOT TRANSLATED ({e})\n")
+    except Exception as e:
+        msgs.append(f"primitives: translator error {e!r}")
+        out2.append(f"-- primitives: NOT TRANSLATED ({e!r})\n")
     out2.append("\nend ShapeVerif.Gen\n")
     ch2 = write_if_changed(os.path.join(gendir, "Tables.lean"), "".join(out2))
     if msgs:
         return False, "; ".join(msgs)
-    return True, f"translated 14 units from shape.py, plot.py, polygon.py, jordancurve.py, curve.py (changed: {ch1 or ch2})"
+    return True, f"translated 19 units from shape.py, plot.py, polygon.py, jordancurve.py, curve.py (changed: {ch1 or ch2})"
